@@ -6,6 +6,16 @@ import numpy
 
 from .. import common, t1check
 
+MANIFEST = {
+    "text": "Lean 4 theorems (inverse pairs, compositions, scaling laws, 5-magnitude factor, linearity in area and exposure, "
+            "single-layer constant with |c-0.314|<0.002) over the real numbers about definitions REGENERATED from the Python source on "
+            "every run (translator T1), for all positive arguments and every band of the regenerated table; the translator is "
+            "validated each run against the Python functions; a direct oracle on the real code supplies failing inputs.",
+    "note": "Trusted: Lean kernel + propext/Classical.choice/Quot.sound; Mathlib's Real.rpow/logb/pi as the meaning of **, log10, "
+            "numpy.pi; translator T1 (self-checked each run); IEEE rounding and NumPy axis semantics are not modelled (exercised by "
+            "the oracle on ranks 1-3, every axis).",
+    "technique": "Lean 4 proof over a model regenerated from source (translator) + differential self-check + oracle search",
+}
 REQUIRED = ["cn2_r0_inv", "r0_cn2_inv", "r0_seeing_inv", "seeing_r0_inv", "cn2_to_seeing_eq_comp",
             "seeing_to_cn2_eq_comp", "cn2_seeing_inv", "seeing_cn2_inv", "r0_scales_lambda", "r0_scales_cn2",
             "seeing_scales_lambda", "slopevar_r0_inv", "r0_slopevar_inv", "table_positive",
@@ -159,9 +169,9 @@ def run(chk):
                        "r0_from_slopes: the theorem covers its scalar kernel; the variance/mean reduction is exercised by the oracle"]
     meta = t1check.regenerate(chk)
     chk.build_and_audit("AoVerif.Props.C17", "AoVerif.Props.C17", REQUIRED)
-    ok, log = common.lake_build(["AoVerif.Drive.T1"])
-    if not ok:
-        chk.broke("translator", "generated Lean does not compile", log[-2000:])
-    elif meta is not None:
-        t1check.selfcheck(chk, meta, T1_NAMES, arggen, 6 if quick else 60, rtol=1e-11)
+    if meta is not None:
+        try:
+            t1check.selfcheck(chk, meta, T1_NAMES, arggen, 6 if quick else 60, rtol=1e-11)
+        except common.LeanError as ex:
+            chk.broke("translator", "generated Lean does not compile / run", str(ex))
     oracle(chk, 60 if quick else 2000)
